@@ -474,6 +474,38 @@ func genContent(rt *rapid.T) (string, string) {
 	}
 }
 
+// genLintContent: texts for the lint verdict: tidy (no finding), untidy (warnings), and texts whose
+// only finding is of error severity (mixed tab/space indentation with everything else tidy).
+func genLintContent(rt *rapid.T) (string, string) {
+	f := sqlgen.AllFeatures()
+	f.MaxDepth = 1
+	f.KeywordCase = false
+	toks := sqlgen.Statement(sqlgen.New(rt, f)).Toks
+	switch rapid.IntRange(0, 3).Draw(rt, "lint_content") {
+	case 0:
+		return sqlgen.SQL(toks), "lint_tidy"
+	case 1:
+		return layoutSQL(rt, toks, true), "lint_untidy"
+	default:
+		// one line break followed by space+tab indentation, nothing else to complain about
+		at := 1
+		if len(toks) > 2 {
+			at = rapid.IntRange(1, len(toks)-1).Draw(rt, "break_at")
+		}
+		var b strings.Builder
+		for i, tk := range toks {
+			switch {
+			case i == at:
+				b.WriteString("\n \t")
+			case i > 0:
+				b.WriteByte(' ')
+			}
+			b.WriteString(tk.Text)
+		}
+		return b.String(), "lint_error_only"
+	}
+}
+
 func TestCLIVerdict(t *testing.T) {
 	hx.Rule("cli_verdict", "the gosqlx binary built from the tree under test on generated file sets (1-4 files: valid, multi-statement, corrupted, empty, stray semicolons, MySQL-only syntax; names with spaces) x validate (text/json/sarif, --strict, --dialect, -q, --output-file) / format (-i, --check, --compact, --no-uppercase, --indent) / lint (--fail-on-warn) / parse: exit status 0 iff the library (same dialect/strict options, CLI rule set) accepts every input; check-only modes leave every file byte-identical (hash, mode, mtime); JSON and SARIF reports parse, carry consistent counts and name exactly the failing inputs; -i never rewrites a file whose processing failed; non-trivial = mixed valid/invalid set; distinct = command + flags + verdict vector")
 	if _, err := build(); err != nil {
@@ -525,6 +557,9 @@ func TestCLIVerdict(t *testing.T) {
 		case "lint":
 			if rapid.Bool().Draw(rt, "fow") {
 				c.Flags = append(c.Flags, "--fail-on-warn")
+			}
+			for i := range c.Files {
+				c.Files[i].Content, vec[i] = genLintContent(rt)
 			}
 		case "parse":
 			c.Files = c.Files[:1]
@@ -787,6 +822,9 @@ type FaultCase struct {
 	Flags   []string `json:"flags"`
 	Content string   `json:"content"`
 	Mode    uint32   `json:"mode"`
+	// Link: "" = a plain file; "hard" = the file has a second hard link; "sym" = the path given is a
+	// symbolic link to the file
+	Link string `json:"link,omitempty"`
 }
 
 func (c FaultCase) args() []string {
@@ -820,8 +858,28 @@ func oracleFault(c FaultCase) error {
 	if mode == 0 {
 		mode = 0o644
 	}
+	other := filepath.Join(dir, "other-name.sql")
 	restore := func() error {
 		os.Remove(target)
+		os.Remove(other)
+		switch c.Link {
+		case "sym":
+			if err := os.WriteFile(other, []byte(c.Content), mode); err != nil {
+				return err
+			}
+			if err := os.Chmod(other, mode); err != nil {
+				return err
+			}
+			return os.Symlink("other-name.sql", target)
+		case "hard":
+			if err := os.WriteFile(target, []byte(c.Content), mode); err != nil {
+				return err
+			}
+			if err := os.Chmod(target, mode); err != nil {
+				return err
+			}
+			return os.Link(target, other)
+		}
 		if err := os.WriteFile(target, []byte(c.Content), mode); err != nil {
 			return err
 		}
@@ -901,7 +959,7 @@ func oracleFault(c FaultCase) error {
 var faultCheck = hx.NewCheck("inplace_faults", oracleFault)
 
 func TestInPlaceFaults(t *testing.T) {
-	hx.Rule("inplace_faults", "format -i (flag combinations) and lint --auto-fix on one generated untidy file with mode 0644/0600/0664: first an undisturbed run gives the new content; then for EVERY k in 0..len(new) the command runs under RLIMIT_FSIZE=k (write fails after exactly k bytes; SIGXFSZ blocked and default) and, via strace fault injection, is SIGKILLed before its n-th file-related system call for every n until it completes; after each run the file must equal the complete original or the complete new content; non-trivial = the undisturbed run rewrites the file; distinct = op + flags + content hash; evaluations counts fault runs")
+	hx.Rule("inplace_faults", "format -i (flag combinations) and lint --auto-fix on one generated untidy file with mode 0644/0600/0664 that is a plain file, has a second hard link, or is reached through a symbolic link: first an undisturbed run gives the new content; then for EVERY k in 0..len(new) the command runs under RLIMIT_FSIZE=k (write fails after exactly k bytes; SIGXFSZ blocked and default) and, via strace fault injection, is SIGKILLed before its n-th file-related system call for every n until it completes; after each run the file must equal the complete original or the complete new content; non-trivial = the undisturbed run rewrites the file; distinct = op + flags + content hash; evaluations counts fault runs")
 	if _, err := build(); err != nil {
 		t.Fatalf("HARNESS: %v", err)
 	}
@@ -923,7 +981,8 @@ func TestInPlaceFaults(t *testing.T) {
 			c.Flags = genFormatFlags(rt)
 		}
 		c.Mode = rapid.SampledFrom([]uint32{0o644, 0o600, 0o664}).Draw(rt, "mode")
-		hx.Case("inplace_faults", true, c.Op+strings.Join(c.Flags, " ")+fmt.Sprintf("%x", sha256.Sum256([]byte(c.Content)))[:12], "op_"+c.Op)
+		c.Link = rapid.SampledFrom([]string{"", "", "hard", "sym"}).Draw(rt, "link")
+		hx.Case("inplace_faults", true, c.Op+c.Link+strings.Join(c.Flags, " ")+fmt.Sprintf("%x", sha256.Sum256([]byte(c.Content)))[:12], "op_"+c.Op, "link_"+c.Link)
 		hx.Sample("inplace_faults", map[string]interface{}{"op": c.Op, "flags": c.Flags, "content": clip(c.Content)})
 		return c
 	})
